@@ -29,6 +29,10 @@ CHECKS.update({
    text='For a pool of struct types (mixed widths, nested structs, fixed arrays inside structs, optionals) one template per (written component, read component / neighbour local / copy): the IL is executed symbolically and the solver decides that the written component reads back the new value and every other component, neighbouring locals and copies are unchanged, for all values. Pointer size 8 only (QBE).',
    note=_TV_NOTE + ' Pointer size 4 (wasm) and result types are not covered yet.'),
 })
+CHECKS['C09'] = dict(level='translation_validation', engine='lirsym/qbe', design='4/C09',
+   technique='SMT-decided relational translation validation: IL of P vs IL of rewrite R(P), all parameter values, z3',
+   text='For base templates (arithmetic, comparisons, control flow, composites, constant-expression forms) and four meaning-preserving rewrites (literal -> call, bind subexpression to a local, let -> const, wrap in if true {}) both programs are compiled by the fresh compiler; obligations: same accept/reject (apart from the documented constant-index rule) and, for every pair of IL paths, no input on which return value, termination or prints differ. Counterexamples are replayed on both native executables.',
+   note=_TV_NOTE + ' No reference semantics is involved in C09. Compile-time rejection of overflowing constant expressions is not exercised.')
 NA_DEFAULT = 'check not built yet (work in progress, see DESIGN.md section 11)'
 NA = {}
 
